@@ -11,6 +11,7 @@ mod c15;
 mod common;
 mod concurrent;
 mod infer;
+mod bigdet;
 mod layouts;
 mod strategies;
 
